@@ -19,8 +19,10 @@ package c20
 import (
 	"embed"
 	"fmt"
-	"os"
 	"hash/fnv"
+	"os"
+	"runtime"
+	"runtime/debug"
 	"sort"
 	"strings"
 	"testing"
@@ -151,6 +153,13 @@ func tally(c *kit.Case, prefix string, res outcome) {
 func TestVerifC20(t *testing.T) {
 	logx.Disable()
 	installFatalTrap()
+	// A shard works sequentially (one input at a time; the caller waits for the guarded goroutine) on
+	// inputs of a few KB: with the default settings most of its CPU time went into garbage-collector
+	// cycles over a tiny heap contended by 16 Ps (measured: 5x the CPU time of the same work).
+	if runtime.GOMAXPROCS(0) > 3 {
+		runtime.GOMAXPROCS(3)
+	}
+	debug.SetGCPercent(800)
 	corpus := loadCorpus()
 
 	// debugging aid: VERIF_C20_FILE=<path> checks that one file and prints what the oracles say
